@@ -316,7 +316,7 @@ class Translator:
         L.append("#endif")
         L.append("#ifdef VP_NATIVE")
         L.append("  vp_native_dump(vp_ghost, VP_NG, vp_covered);")
-        for (tn, _) in threads: L.append(f'  printf("DONE {tn} %d\\n", {tn}_done);')
+        for t_, (tn, _) in enumerate(threads): L.append(f'  printf("DONE {tn} %d\\n", {tn}_done); printf("BLOCKS {tn} %u\\n", vp_blockcount_[{t_ + 1}]);')
         L.append("#endif")
         L.append("  return 0;")
         L.append("}")
